@@ -257,7 +257,7 @@ func c19SrvScenario(variant string, dotu bool, D int) Scenario {
 		fs := NewFS()
 		fs.FlushMode = "cancel"
 		fs.NoLateAnswer = true // an implementation that cancels a request must not go on answering it
-		h := NewSrvH(fs, SrvOpt{Msize: 8216, Dotu: dotu, Flush: variant != "flush-without-flushop" && variant != "flush-of-flush", Maxpend: 1})
+		h := NewSrvH(fs, SrvOpt{Msize: 8216, Dotu: dotu, Flush: variant != "flush-without-flushop" && variant != "flush-of-flush" && variant != "flush-of-queued-slow-respond", ReqHooks: variant == "flush-of-queued-slow-respond", Maxpend: 1})
 		c := h.Connect()
 		ver := "9P2000"
 		if dotu {
@@ -294,6 +294,48 @@ func c19SrvScenario(variant string, dotu bool, D int) Scenario {
 			c.Send(dotu, &wire.Msg{Type: wire.Tread, Tag: 20, Fid: 1, Count: 8}, &wire.Msg{Type: wire.Tstat, Tag: 21, Fid: 2})
 			c.Send(dotu, &wire.Msg{Type: wire.Tflush, Tag: 22, Oldtag: 20}, &wire.Msg{Type: wire.Tstat, Tag: 23, Fid: 0})
 			vs.Go("releaser", func() { gate.Release() })
+			vs.Idle()
+		case "flush-before-start":
+			// a Tflush in the same segment as its target (it may find the target not started yet),
+			// followed at once by requests on other fids
+			c.Version(8216, ver)
+			c.Rpc(att)
+			c.Rpc(twalk(2, 0, 1, "f"))
+			c.Rpc(twalk(3, 0, 2, "g"))
+			// (if the target does reach the implementation it waits there, so that the worker and
+			// the implementation's Flush handler settle between them who answers)
+			gate := vs.NewSem(0)
+			fs.Script[reqKey{0, 20, 0}] = &Action{Gate: gate}
+			vs.Window(true)
+			c.Send(dotu, &wire.Msg{Type: wire.Tstat, Tag: 20, Fid: 1}, &wire.Msg{Type: wire.Tflush, Tag: 22, Oldtag: 20})
+			c.Send(dotu, &wire.Msg{Type: wire.Tstat, Tag: 23, Fid: 2})
+			c.Send(dotu, &wire.Msg{Type: wire.Tstat, Tag: 24, Fid: 0})
+			vs.Go("releaser", func() { gate.Release() })
+			vs.Idle()
+		case "flush-of-queued-slow-respond":
+			// a request queued behind another one with the same tag is cancelled by a Tflush; the
+			// implementation is slow in SrvReqRespond for the cancelled request; the first one
+			// completes (the cancelled one's turn comes and goes); other traffic follows
+			c.Version(8216, ver)
+			c.Rpc(att)
+			c.Rpc(twalk(2, 0, 1, "f"))
+			c.Rpc(twalk(3, 0, 2, "g"))
+			gate := vs.NewSem(0)
+			fs.Script[reqKey{0, 20, 0}] = &Action{Gate: gate}
+			c.Send(dotu, &wire.Msg{Type: wire.Tstat, Tag: 20, Fid: 1})
+			vs.Idle()
+			c.Send(dotu, &wire.Msg{Type: wire.Tstat, Tag: 20, Fid: 2})
+			vs.Idle()
+			rg := vs.NewSem(0)
+			RespondGate = rg
+			vs.Window(true)
+			c.Send(dotu, &wire.Msg{Type: wire.Tflush, Tag: 22, Oldtag: 20})
+			vs.Idle()
+			gate.Release()
+			vs.Idle()
+			c.Send(dotu, &wire.Msg{Type: wire.Tstat, Tag: 23, Fid: 0}, &wire.Msg{Type: wire.Tstat, Tag: 24, Fid: 2})
+			vs.Idle()
+			rg.Release()
 			vs.Idle()
 		case "flush-of-flush":
 			// a request held in the implementation, a Tflush waiting for it, and - at the moment the
@@ -617,7 +659,7 @@ func c19Scenarios(tier string) []Scenario {
 	var out []Scenario
 	for _, dotu := range []bool{false, true} {
 		out = append(out, c19UfsScenario(2, dotu, D))
-		for _, v := range []string{"version-then-pipeline", "flush", "flush-without-flushop", "flush-of-flush", "second-connection"} {
+		for _, v := range []string{"version-then-pipeline", "flush", "flush-without-flushop", "flush-of-flush", "flush-before-start", "flush-of-queued-slow-respond", "second-connection"} {
 			out = append(out, c19SrvScenario(v, dotu, D))
 		}
 		out = append(out, c19ClientScenario(2, dotu, D))
